@@ -438,11 +438,12 @@ def differential(harness_exe, driver_exe, cases, scratch, name="cases", timeout=
         start += k + 1
     while len(impl) < len(cases):
         impl.append("CRASH: not run")
-    # a case that died in the batch is run again on its own with a long watchdog: a slow case on a loaded machine is
-    # not a hang.  The CRASH result stands when any of the repeats dies too (the first such result is kept).
+    # a case that did not finish in the batch (watchdog / timeout) is run again on its own with a long watchdog: a
+    # slow case on a loaded machine is not a hang.  The verdict stands when any of the repeats dies too.
     retried = 0
     for i, a in enumerate(impl):
-        if not a.startswith("CRASH:") or retried >= 8:
+        # only a hang verdict depends on the machine's load; an abort, a signal or a sanitizer report stands as it is
+        if not a.startswith("CRASH:") or retried >= 8 or not ("harness watchdog" in a or a.startswith("CRASH: rc=-9 ")):
             continue
         retried += 1
         cf3 = os.path.join(scratch, name + ".one.txt")
